@@ -1135,6 +1135,27 @@ func (ro *RedisOutput) sendCmdsBatch(replayWait usync.WaitCloser, conn client.Re
 			}
 		}
 
+		failed := func(err error) error {
+			if marked {
+				delete(cpInDbs, markedCpDb)
+			}
+			ro.logger.Errorf("exec error %v", err)
+			failCounter.Inc(ro.cfg.InputName)
+			batchSendCounter.Add(1, ro.cfg.InputName, transactionLabel, "error")
+			return err
+		}
+
+		// a cluster executes the parts of one batch on several nodes concurrently : the node of the checkpoint
+		// key must not apply the position while a data command fails on another node, so without a
+		// transaction the position follows in a batch of its own, once the data commands went through
+		if !isPipeline && !shouldInTransaction && shouldUpdateCP && ro.cfg.EnableResumeFromBreakPoint &&
+			ro.cfg.Redis.IsCluster() && batcher.Len() > 0 {
+			if _, err := batcher.Exec(); err != nil {
+				return failed(err)
+			}
+			batcher = conn.NewBatcher(isPipeline)
+		}
+
 		if shouldUpdateCP {
 			if ro.cfg.EnableResumeFromBreakPoint {
 				// the checkpoint lands in the database the connection is in after the queued commands,
@@ -1164,13 +1185,7 @@ func (ro *RedisOutput) sendCmdsBatch(replayWait usync.WaitCloser, conn client.Re
 		}
 
 		if err != nil {
-			if marked {
-				delete(cpInDbs, markedCpDb)
-			}
-			ro.logger.Errorf("exec error %v", err)
-			failCounter.Inc(ro.cfg.InputName)
-			batchSendCounter.Add(1, ro.cfg.InputName, transactionLabel, "error")
-			return err
+			return failed(err)
 		}
 
 		setMemCP()
